@@ -128,18 +128,92 @@ class CaseRun:
     def mem(self):
         return alloc.buf_bytes(self.b)
 
-    def state_line(self):
+    def state_line(self, aux=False):
+        b, handles = (self.xb, self.xhandles) if aux else (self.b, self.handles)
         parts = []
-        for (o, ci) in self.handles:
+        for (o, ci) in handles:
             for k, f in enumerate(self.u[ci]):
                 if f == "s":
                     continue
                 v = self.C.get(o, ci, k)
                 idx = 0
                 if f[0] == "u":
-                    idx = int(self.xo.Int64._from_buffer(self.b, o._offset + self.C.foff(ci, k) + 8))
+                    idx = int(self.xo.Int64._from_buffer(b, o._offset + self.C.foff(ci, k) + 8))
                 parts.append(f"{o._offset}.{k}={'N' if v is None else v._offset}/{idx}")
-        return f"cap {self.b.capacity} sum {common.cksum(self.mem())} refs [{' '.join(parts)}]"
+        return f"cap {b.capacity} sum {common.cksum(alloc.buf_bytes(b))} refs [{' '.join(parts)}]"
+
+    def tree_size(self, o, ci, onpath=()):
+        """number of nodes a copy into another buffer creates (referents are duplicated per path); None on a cycle"""
+        if o._offset in onpath:
+            return None
+        n = 1
+        for k, f in enumerate(self.u[ci]):
+            if f == "s":
+                continue
+            v = self.C.get(o, ci, k)
+            if v is not None:
+                m = self.tree_size(v, self.C.names.index(type(v).__name__), onpath + (o._offset,))
+                if m is None or n + m > 300:
+                    return None
+                n += m
+        return n
+
+    def preorder(self, o, ci, out):
+        out.append((o, ci))
+        for k, f in enumerate(self.u[ci]):
+            if f != "s":
+                v = self.C.get(o, ci, k)
+                if v is not None:
+                    self.preorder(v, self.C.names.index(type(v).__name__), out)
+        return out
+
+    def deep_equal(self, a, b, ci, what, depth=0):
+        """value equality along every path (scalars, nulls, classes of referents)"""
+        for k, f in enumerate(self.u[ci]):
+            x, y = self.C.get(a, ci, k), self.C.get(b, ci, k)
+            if f == "s":
+                if int(x) != int(y):
+                    self.failure("xcopy-scalar", f"{what}: depth {depth} field {k} reads {y}, the source {x}", prop="C09")
+                    return False
+            elif (x is None) != (y is None) or (x is not None and type(x) is not type(y)):
+                self.failure("xcopy-referent", f"{what}: depth {depth} field {k} of the copy is {y!r}, of the source {x!r}", prop="C09")
+                return False
+            elif x is not None and not self.deep_equal(x, y, self.C.names.index(type(x).__name__), what, depth + 1):
+                return False
+        return True
+
+    def do_xcopy(self, h, ci, src_aux, what):
+        """`Cls(h, _buffer=<the other buffer>)`: h lives in the main buffer (src_aux False) or in the second one"""
+        sb, db = (self.xb, self.b) if src_aux else (self.b, self.xb)
+        dh = self.handles if src_aux else self.xhandles
+        simg = alloc.buf_bytes(sb)
+        dimg = alloc.buf_bytes(db)
+        dext = [(o._offset, self.C.size(c_)) for (o, c_) in dh] + (list(self.raw) if src_aux else [])
+        self.emit(("xback " if src_aux else "xcopy ") + str(h._offset))
+        n = self.C.cls[ci](h, _buffer=db)
+        fresh = self.preorder(n, ci, [])
+        dh.extend(fresh)
+        self.expect.append(f"obj {n._offset} " + self.state_line(aux=not src_aux))
+        self.tags["xcopy.nodes"] += len(fresh)
+        if alloc.buf_bytes(sb) != simg:
+            self.failure("xcopy-wrote-source", f"{what}: copying into another buffer changed the source buffer", prop="C09")
+        dnow = alloc.buf_bytes(db)
+        for (o, sz) in dext:
+            if dnow[o:o + sz] != dimg[o:o + sz]:
+                self.failure("xcopy-wrote-live", f"{what}: the live region ({o},{sz}) of the destination changed", prop=("C09", "C03"))
+                break
+        seen = list(dext)
+        for (o, c_) in fresh:
+            if o._buffer is not db:
+                self.failure("xcopy-not-in-destination", f"{what}: a node of the copy lives in another buffer than the copy", prop=("C09", "C08"))
+                break
+            e = (o._offset, self.C.size(c_))
+            if any(e[0] < q + m and q < e[0] + e[1] for (q, m) in seen if m and e[1]):
+                self.failure("xcopy-overlap", f"{what}: node {e} of the copy overlaps a live region or another node of the copy", prop=("C09", "C04"))
+                break
+            seen.append(e)
+        self.deep_equal(h, n, ci, what)
+        return n
 
     def check_refs(self, what):
         """every reference of every live node, decoded from the raw bytes, denotes a live node of the member class"""
@@ -206,6 +280,12 @@ class CaseRun:
         self.expect.append("ok [" + ", ".join(str(self.C.cls[i]._size) for i in range(len(self.u))) + "]")
         self.emit(f"buf {c['cap']} {c['align']} {c['grow_step'] if c['grow_step'] is not None else '-'}")
         self.expect.append("ok " + self.state_line())
+        # a second buffer: destination (and source) of copies across buffers
+        x = c.get("x") or {"kind": "numpy", "cap": 64, "align": 8, "grow_step": None}
+        self.xb = alloc.make_buffer(self.xo, x["kind"], x["cap"], x["align"], x["grow_step"])
+        self.xhandles = []
+        self.emit(f"xbuf {x['cap']} {x['align']} {x['grow_step'] if x['grow_step'] is not None else '-'}")
+        self.expect.append("ok " + self.state_line(aux=True))
 
     def kw(self, ci, vs):
         ks = [k for k, f in enumerate(self.u[ci]) if f == "s"]
@@ -334,6 +414,21 @@ class CaseRun:
                                                                            or b._buffer is not self.b)):
                         self.failure("copy-referent", f"{what}: field {k} of the copy denotes {b!r}, of the source {a!r} "
                                      "(same buffer: the same referent is expected)", prop="C09")
+            elif kind == "xcopy":
+                _, hi = op
+                h, ci = self.handles[hi]
+                if self.tree_size(h, ci) is None:
+                    self.tags["xcopy.skipped-cyclic-or-huge"] += 1
+                else:
+                    self.do_xcopy(h, ci, False, what)
+            elif kind == "xback":
+                _, xi = op
+                if xi < len(self.xhandles):
+                    h, ci = self.xhandles[xi]
+                    if self.tree_size(h, ci) is not None:
+                        before = self.extents()
+                        n = self.do_xcopy(h, ci, True, what)
+                        self.check_fresh(n._offset, self.C.size(ci), before, what)
             elif kind == "upd":
                 _, hi, ti = op
                 (h, ci), (t, _) = self.handles[hi], self.handles[ti]
@@ -380,7 +475,7 @@ class CaseRun:
         hs = self.handles
         refslots = [(hi, k) for hi, (_, ci) in enumerate(hs) for k, f in enumerate(self.u[ci]) if f != "s"]
         choice = r.choice(["new"] * 3 + ["copy"] * 2 + ["upd"] * 2 + ["bindobj"] * 4 + ["bindval"] * 3 + ["bindnull"] + ["setscal"] * 2 + ["setvia"] * 3
-                          + ["alloc"] * 2 + ["grow"] + ["bindbad"] * 2)
+                          + ["alloc"] * 2 + ["grow"] + ["bindbad"] * 2 + ["xcopy"] * 2 + ["xback"])
         val = lambda: r.choice([0, 1, 255, 2 ** 31, 2 ** 62 + 5, r.randrange(2 ** 63)])
         if choice == "new" or not hs:
             ci = r.randrange(len(self.u))
@@ -388,6 +483,12 @@ class CaseRun:
             return ("new", ci, [val() for _ in range(r.randrange(n + 1))])
         if choice == "copy":
             return ("copy", r.randrange(len(hs)))
+        if choice == "xcopy":
+            return ("xcopy", r.randrange(len(hs)))
+        if choice == "xback":
+            if self.xhandles:
+                return ("xback", r.randrange(len(self.xhandles)))
+            return ("xcopy", r.randrange(len(hs)))
         if choice == "upd":
             hi = r.randrange(len(hs))
             return ("upd", hi, r.choice([ti for ti, (_, ci) in enumerate(hs) if ci == hs[hi][1]]))
@@ -450,7 +551,7 @@ class CaseRun:
         self.start()
         for op in ops:
             op = tuple(op)
-            if op[0] in ("bindobj", "bindbad", "bindnull", "bindval", "setscal", "setvia", "copy", "upd") and op[1] >= len(self.handles):
+            if op[0] in ("bindobj", "bindbad", "bindnull", "bindval", "setscal", "setvia", "copy", "upd", "xcopy") and op[1] >= len(self.handles):
                 continue
             if op[0] == "upd" and op[2] >= len(self.handles):
                 continue
@@ -466,7 +567,9 @@ class CaseRun:
 def random_cfg(r):
     return {"kind": r.choice(alloc.KINDS), "cap": r.choice([0, 8, 16, 64, 64, 200, 1000]),
             "align": r.choice([1, 2, 8, 8, 16, 64]), "grow_step": r.choice([None, None, 1, 24, 64, 1000]),
-            "arrays": r.random() < 0.5}
+            "arrays": r.random() < 0.5,
+            "x": {"kind": r.choice(alloc.KINDS), "cap": r.choice([0, 8, 64, 64, 200]), "align": r.choice([1, 8, 8, 16, 64]),
+                  "grow_step": r.choice([None, None, 1, 24, 1000])}}
 
 
 def corpus_cases():
@@ -496,6 +599,12 @@ def corpus_cases():
         ({"kind": "numpy", "cap": 64, "align": 8, "grow_step": None}, [["s"], ["s", "s"], ["u0+1", "u0", "u1+0"]],
          [("new", 0, [8]), ("new", 1, [1, 2]), ("new", 2, []), ("bindobj", 2, 0, 1), ("bindbad", 2, 1, 1), ("bindobj", 2, 2, 1),
           ("bindbad", 2, 1, 2), ("bindobj", 2, 1, 0), ("bindbad", 2, 1, 1), ("bindbad", 2, 0, 2), ("copy", 2)]),
+        # copies into another buffer and back: a referent reached twice is duplicated twice; unions; nulls
+        ({"kind": "numpy", "cap": 64, "align": 8, "grow_step": None, "x": {"kind": "bytearray", "cap": 8, "align": 16, "grow_step": 24}},
+         [["s", "s"], ["s", "r0", "r0"], ["u0+1", "r1", "s", "u1+0"]],
+         [("new", 0, [5, 6]), ("new", 1, [7]), ("bindobj", 1, 1, 0), ("bindobj", 1, 2, 0), ("new", 2, [9]), ("bindobj", 2, 0, 1),
+          ("bindobj", 2, 1, 1), ("bindobj", 2, 3, 0), ("xcopy", 2), ("xcopy", 0), ("xback", 1), ("setvia", 2, 1, 0, 77), ("xcopy", 2),
+          ("xback", 0), ("bindnull", 2, 0), ("xcopy", 2), ("copy", 2)]),
         # capacity 0, members listed in reverse order
         ({"kind": "numpy", "cap": 0, "align": 64, "grow_step": 1}, [["s"], ["s", "s"], ["u1+0", "u0"]],
          [("new", 2, []), ("new", 0, [8]), ("new", 1, [1, 2]), ("bindobj", 0, 0, 1), ("bindobj", 0, 1, 1), ("bindobj", 0, 0, 2),
